@@ -62,6 +62,7 @@ func c04Judge(w *fw.W, c *c04Case) bool {
 				// the outcome legitimately depends on the visiting order of a multi-valued collection: not judged
 				w.Count("ambiguous_skipped", 1)
 				w.Cover("ambiguous_reasons", exp.Ambiguous)
+				w.Count("ambiguous: "+exp.Ambiguous, 1)
 				return true
 			}
 			if !c04OrderInsensitive(c.Program) {
@@ -70,6 +71,7 @@ func c04Judge(w *fw.W, c *c04Case) bool {
 				// rule sets that cannot express an order dependence at all
 				w.Count("ambiguous_skipped", 1)
 				w.Cover("ambiguous_reasons", exp.Ambiguous+" (rule set uses order-sensitive constructs)")
+				w.Count("ambiguous: "+exp.Ambiguous+" (rule set uses order-sensitive constructs)", 1)
 				return true
 			}
 			// the model cannot predict the outcome (unpinned construct), but whatever the outcome is, it has to be
